@@ -233,9 +233,8 @@ def register(R):
 
     def unsupported_target(c):
         """own RuntimeError of _submit: no input / output manager is compatible with the user's file object -- raised
-        before anything was requested or submitted"""
-        return {'nothing_requested_or_submitted_for_an_unsupported_target': (B(
-            not [e for e in flat(c.trace) if e.kind == 'ext' and e.name.startswith('client.')] and not submits(c.trace)), ['C03', 'C04'])}
+        before any task was submitted (a download may already have asked for the object's size)"""
+        return {'nothing_submitted_for_an_unsupported_target': (B(not submits(c.trace)), ['C03', 'C04'])}
 
     def up_submit_checks(c):
         tr = c.trace
